@@ -93,7 +93,11 @@ class PostgreSQLQueryBuilder(QueryBuilder):
             }
             join_tables = set(
                 itertools.chain.from_iterable(
-                    [j.criterion.tables_ for j in self._joins]  # type:ignore[attr-defined]
+                    [
+                        j.criterion.tables_  # type:ignore[attr-defined]
+                        for j in self._joins
+                        if hasattr(j, "criterion")  # cross and USING joins have none
+                    ]
                 )
             )
             join_and_base_tables = set(self._from) | join_tables
